@@ -213,7 +213,7 @@ func run(c *mon.Ctx) {
 			pts(c, v, r, fmt.Sprintf("boundary=%x", v))
 		}
 	})
-	c.Stream("random", c.N(4000, 200000), func(i int, r *gen.Rand) {
+	c.Stream("random", c.N(4000, 3000000), func(i int, r *gen.Rand) {
 		for k := 0; k < 50; k++ {
 			v := r.Uint64() % ref.PCRMax
 			pcr(c, v, r, popclass(v))
@@ -221,7 +221,7 @@ func run(c *mon.Ctx) {
 			pts(c, w, r, popclass(w))
 		}
 	})
-	c.Stream("decoder-agreement", c.N(2000, 100000), func(i int, r *gen.Rand) {
+	c.Stream("decoder-agreement", c.N(2000, 3000000), func(i int, r *gen.Rand) {
 		for k := 0; k < 100; k++ {
 			b := r.Bytes(5)
 			a, d := gots.ExtractTime(b), pes.ExtractTime(b)
@@ -240,5 +240,5 @@ func run(c *mon.Ctx) {
 			c.Sample(func() interface{} { return wit{Op: "InsertPTS", Value: v, Want: mon.Hex(e[:])} })
 		}
 	})
-	c.Stream("end-to-end", c.N(20000, 1000000), func(i int, r *gen.Rand) { endToEnd(c, r) })
+	c.Stream("end-to-end", c.N(20000, 30000000), func(i int, r *gen.Rand) { endToEnd(c, r) })
 }
